@@ -1,10 +1,111 @@
 (* C09 — parsing is order-independent and detects task completeness exactly.
-   (first layer; the parser_spec development extends this file) *)
-From Coq Require Import List PArith.
-Require Import Eliot.Base.Level Eliot.Model.Parser Eliot.Proofs.ParserBasics.
+   For ALL forests, ALL subsets and ALL arrival orders (no bound on size or depth). *)
+From Coq Require Import List PArith Permutation.
+Require Import Eliot.Base.Level Eliot.Model.Parser Eliot.Model.Forest.
+Require Import Eliot.Proofs.ParserBasics Eliot.Proofs.ParserOrder Eliot.Proofs.ParserInterleave
+  Eliot.Proofs.ParserTree Eliot.Proofs.ParserStep Eliot.Proofs.ParserRun Eliot.Proofs.ParserSpec Eliot.Proofs.ParserIds.
 Import ListNotations.
 
 Theorem C09_lookup_after_insert :
   forall (A : Type) (k : level) (v : A) l, llookup k (linsert k v l) = Some v.
 Proof. exact @llookup_linsert_same. Qed.
 Print Assumptions C09_lookup_after_insert.
+
+(* any subset of the messages of any forest, in any order, parses without error *)
+Theorem C09_no_error :
+  forall (f : forest) (ms : list pmsg),
+    NoDup ms -> incl ms (lin f) -> exists r, parse_loop [] ms [] = POk r.
+Proof. exact parser_no_error. Qed.
+Print Assumptions C09_no_error.
+
+(* the result does not depend on the arrival order: same remaining parser map,
+   same completed tasks up to their completion order *)
+Theorem C09_order_independent :
+  forall (f : forest) (ms ms' : list pmsg),
+    NoDup ms -> incl ms (lin f) -> Permutation ms ms' ->
+    exists d d' p,
+      parse_loop [] ms [] = POk (d, p) /\ parse_loop [] ms' [] = POk (d', p) /\ Permutation d d'.
+Proof. exact parser_order_independent. Qed.
+Print Assumptions C09_order_independent.
+
+(* for the messages of a single task the two results are equal *)
+Theorem C09_order_independent_single :
+  forall (f : forest) (ms ms' : list pmsg) (u : nat),
+    NoDup ms -> incl ms (lin f) -> Permutation ms ms' -> (forall m, In m ms -> pm_uuid m = u) ->
+    exists d p, parse_loop [] ms [] = POk (d, p) /\ parse_loop [] ms' [] = POk (d, p).
+Proof. exact parser_order_independent_single. Qed.
+Print Assumptions C09_order_independent_single.
+
+(* a task is returned exactly at the step where the last of its messages arrives,
+   once; what remains at the end are the tasks with some but not all messages, as
+   the partial trees of the received subset *)
+Theorem C09_complete_exact :
+  forall (f : forest) (ms : list pmsg),
+    NoDup ms -> incl ms (lin f) ->
+    exists cs p,
+      parse_trace [] ms = POk (cs, p) /\ parse_loop [] ms [] = POk (concat cs, p) /\
+      length cs = length ms /\
+      (forall i m, nth_error ms i = Some m ->
+         exists c, nth_error cs i = Some c /\
+           (all_received f (pm_uuid m) (firstn (S i) ms) ->
+              exists t, c = [t] /\ final_task f (pm_uuid m) t /\ task_complete t = true) /\
+           (~ all_received f (pm_uuid m) (firstn (S i) ms) -> c = [])) /\
+      (forall i j m m', i < j -> nth_error ms i = Some m -> nth_error ms j = Some m' ->
+         pm_uuid m = pm_uuid m' -> nth_error cs i = Some []) /\
+      (forall u, ulookup u p <> None <-> some_received u ms /\ ~ all_received f u ms) /\
+      (forall u t, ulookup u p = Some t ->
+         exists T, nth_error f u = Some T /\ is_act T = true /\ task_complete t = false /\
+                   task_root t = Some (node_of (lin_id f u) u (recv ms u) [] T)).
+Proof. exact parser_complete_exact. Qed.
+Print Assumptions C09_complete_exact.
+
+(* the completed value of a task is unique and its root is the whole tree *)
+Theorem C09_final_task_unique :
+  forall (f : forest) (u : nat) (t t' : task), final_task f u t -> final_task f u t' -> t = t'.
+Proof. exact final_task_unique. Qed.
+Print Assumptions C09_final_task_unique.
+
+Theorem C09_final_task_root :
+  forall (f : forest) (u : nat) (t : task) (T : tree),
+    final_task f u t -> nth_error f u = Some T -> is_act T = true ->
+    task_root t = Some (node_of (lin_id f u) u (fun _ => true) [] T).
+Proof. exact final_task_root. Qed.
+Print Assumptions C09_final_task_root.
+
+(* tasks with different uuids do not affect each other: what the parser returns at
+   the messages of u, and the task left for u, are those of parsing u's messages alone *)
+Theorem C09_interleaving :
+  forall (f : forest) (ms : list pmsg) (u : nat),
+    NoDup ms -> incl ms (lin f) ->
+    exists cs p,
+      parse_trace [] ms = POk (cs, p) /\
+      parse_trace [] (only u ms) = POk (select u ms cs, restrict p u).
+Proof. exact parser_interleaving. Qed.
+Print Assumptions C09_interleaving.
+
+(* ... for any two streams (not only forests) that parse and have the same u-subsequence *)
+Theorem C09_interleaving_same_subsequence :
+  forall (ms ms' : list pmsg) (cs cs' : list (list task)) (p p' : parser) (u : nat),
+    only u ms = only u ms' ->
+    parse_trace [] ms = POk (cs, p) -> parse_trace [] ms' = POk (cs', p') ->
+    ulookup u p = ulookup u p' /\ select u ms cs = select u ms' cs'.
+Proof. exact interleaving_same_subsequence. Qed.
+Print Assumptions C09_interleaving_same_subsequence.
+
+(* the state of one task is a function of the set of received messages: add_step *)
+Theorem C09_task_add_step :
+  forall (idf : level -> nat) (u : nat) (T : tree), is_act T = true ->
+  forall (R : level -> bool) (t : task) (m : pmsg),
+    Inv idf u T R t -> In m (lin_tree idf u [] T) -> R (pm_level m) = false ->
+    exists t', task_add t m = POk t' /\ Inv idf u T (addl (pm_level m) R) t'.
+Proof. exact task_add_step. Qed.
+Print Assumptions C09_task_add_step.
+
+(* the messages of a forest are distinct and numbered in emission order *)
+Theorem C09_lin_nodup : forall f : forest, NoDup (lin f).
+Proof. exact lin_nodup. Qed.
+Print Assumptions C09_lin_nodup.
+
+Theorem C09_lin_ids : forall f : forest, map pm_id (lin f) = seq 0 (length (lin f)).
+Proof. exact lin_ids. Qed.
+Print Assumptions C09_lin_ids.
